@@ -47,7 +47,7 @@ func UF(ret, name string, args ...Term) Term {
 var symRe = regexp.MustCompile(`[A-Za-z_$][A-Za-z0-9_.!$@]*`)
 
 var smtBuiltins = map[string]bool{"select": true, "store": true, "ite": true, "and": true, "or": true, "not": true, "div": true, "mod": true,
-	"forall": true, "exists": true, "as": true, "const": true, "Array": true, "Int": true, "Bool": true, "true": true, "false": true, "let": true, "abs": true}
+	"forall": true, "exists": true, "distinct": true, "as": true, "const": true, "Array": true, "Int": true, "Bool": true, "true": true, "false": true, "let": true, "abs": true}
 
 type Verdict int
 
